@@ -32,10 +32,8 @@ def run(repo, chk):
     for name in re.findall(r'^def (\w+)', ref, re.M):
         R.run('RECUR', template_check, repo, chk, 'RECUR', S + ':' + name, name, WHAT.get(name, name), ref)
     R.run('RECUR', boundary, repo, chk)
-    R.run('TABLE', table, repo, chk)
     R.run('PAIR', pair, repo, chk)
     chk.expect('RECUR', 11)
-    chk.expect('TABLE', 6)
     chk.expect('PAIR', 12)
 
 
@@ -55,18 +53,6 @@ def boundary(repo, chk):
                 ramp = True
         chk.ob('RECUR', fi, loop, 'row 0 = arange(len(target)+1) * ins_cost (cost of inserting the first j target symbols)', ramp,
                'without the ramp, alignments that start with an insertion are priced wrongly', construct='row 0 ramp ' + name)
-
-
-def table(repo, chk):
-    for name in ('levenshtein_alignment', 'levenshtein_alignment_path', 'levenshtein_alignment_substring'):
-        fi = repo.func(S + ':' + name)
-        t = ' '.join(src(fi.node).split())
-        enc = ('backtrack[0] = -1' in t and re.search(r'backtrack\[ii \+ 1, 1:(-1)?\]\[where_sub\] = 0', t) is not None and
-               'backtrack[ii + 1, jj + 1] = -1' in t and re.search(r'backtrack = np\.ones\(', t) is not None)
-        chk.ob('TABLE', fi, fi.node, 'encoder: default +1 (vertical), diagonal 0, horizontal -1, row 0 -1', enc, construct='backpointer encoder ' + name)
-        dec = re.search(r'if where >= 0: src_pos -= 1 if where <= 0: tar_pos -= 1', t) is not None
-        chk.ob('TABLE', fi, fi.node, 'decoder: codes >= 0 consume a source symbol, codes <= 0 consume a target symbol', dec,
-               construct='backpointer decoder ' + name)
 
 
 def pair(repo, chk):
